@@ -1,6 +1,6 @@
 /-
   C01 — property theorems.  For EVERY table (any shape incl. empty axes, any grid, any IDs, metadata
-  of the per-category-homogeneous domain with '@'-free category names, type / id absent or non-empty,
+  of the per-category-homogeneous domain with '@'-free category names and list-valued hierarchical categories, type / id absent or non-empty,
   any group metadata), every `generated_by`, every date, every utf-8 and date codec satisfying the
   round-trip contracts and EVERY pair of matrix layouts satisfying the scipy contract: loading the
   written tree — through either axis and through any of the three loaders — gives back the IDs in
@@ -28,7 +28,7 @@ theorem type_rt (ty : Option String) (h : ty ≠ some "") :
 metadata, header fields, group metadata). -/
 theorem fromH5_written (c : Utf8) (hc : c.RT) (dc : DateC δ) (hdc : dc.RT) (t : Src α) (genBy : String)
     (date : Option δ) (now : δ) (csr csc : CS α) (hw : SrcWF t) (hv : Views t csr csc)
-    (hmo : mdDomain t.omd = true) (hms : mdDomain t.smd = true) (hao : keysNoAt t.omd) (has : keysNoAt t.smd)
+    (hmo : mdDomain t.omd = true) (hms : mdDomain t.smd = true) (hao : rtDomain t.omd) (has : rtDomain t.smd)
     (hh : HeaderOK t) (ax : Axis) :
     fromH5 c dc (written c dc t genBy date now csr csc) ax = .ok (expected t genBy (date.getD now)) := by
   have hid : attrStr (written c dc t genBy date now csr csc) "id" = .ok (idAttr t.tableId) := by
@@ -41,10 +41,10 @@ theorem fromH5_written (c : Utf8) (hc : c.RT) (dc : DateC δ) (hdc : dc.RT) (t :
     simp [attrStr, written, attrTree, List.lookup]
   have hshape : attrShape (written c dc t genBy date now csr csc) = .ok (t.obs.length, t.samp.length) := by
     simp [attrShape, written, attrTree, List.lookup, hv.csrMajor, hv.csrMinor]
-  have hobs : (written c dc t genBy date now csr csc).obs = some (axTree c t.obs t.omd t.ogmd csr) := rfl
-  have hsamp : (written c dc t genBy date now csr csc).samp = some (axTree c t.samp t.smd t.sgmd csc) := rfl
-  have hlo := axisLoad_axTree c hc t.obs t.omd t.ogmd csr hw.omdLen hmo hao
-  have hls := axisLoad_axTree c hc t.samp t.smd t.sgmd csc hw.smdLen hms has
+  have hobs : (written c dc t genBy date now csr csc).obs = some (axTree c t.obs t.omd (gmdAll t.ogmd t.ogmdBare) csr) := rfl
+  have hsamp : (written c dc t genBy date now csr csc).samp = some (axTree c t.samp t.smd (gmdAll t.sgmd t.sgmdBare) csc) := rfl
+  have hlo := axisLoad_axTree c hc t.obs t.omd (gmdAll t.ogmd t.ogmdBare) csr hw.omdLen hmo hao
+  have hls := axisLoad_axTree c hc t.samp t.smd (gmdAll t.sgmd t.sgmdBare) csc hw.smdLen hms has
   unfold fromH5
   simp only [hid, hcd, hgb, hty, hshape, hdc _, hobs, hsamp, reqE, hlo, hls, type_rt t.ttype hh.typeNe,
     bind, Except.bind]
@@ -59,7 +59,7 @@ theorem fromH5_written (c : Utf8) (hc : c.RT) (dc : DateC δ) (hdc : dc.RT) (t :
 /-- `from_hdf5(to_hdf5(t))`, as a statement about the two model functions -/
 theorem fromH5_toH5 (c : Utf8) (hc : c.RT) (dc : DateC δ) (hdc : dc.RT) (t : Src α) (genBy : String)
     (date : Option δ) (now : δ) (csr csc : CS α) (hw : SrcWF t) (hv : Views t csr csc)
-    (hmo : mdDomain t.omd = true) (hms : mdDomain t.smd = true) (hao : keysNoAt t.omd) (has : keysNoAt t.smd)
+    (hmo : mdDomain t.omd = true) (hms : mdDomain t.smd = true) (hao : rtDomain t.omd) (has : rtDomain t.smd)
     (hh : HeaderOK t) (ax : Axis) :
     (toH5 c dc t genBy date now csr csc).bind (fun h => fromH5 c dc h ax) =
       .ok (expected t genBy (date.getD now)) := by
@@ -89,13 +89,13 @@ theorem holds_expected [DecidableEq δ] (t : Src α) (genBy : String) (date : Op
     cases date <;> simp
   simp only [holds, clauses, expected, List.all_cons, List.all_nil, Bool.and_true, Bool.and_eq_true]
   refine ⟨by simp, by simp, ⟨hshape1, hshape2⟩, by simp, mdClause_normMd t.obs t.omd hmo, mdClause_normMd t.samp t.smd hms,
-    by simp, by rw [hid]; exact beq_self_eq_true _, by simp, hdate, gmdClause_loaded t.ogmd hh.ogmdKeys, gmdClause_loaded t.sgmd hh.sgmdKeys⟩
+    by simp, by rw [hid]; exact beq_self_eq_true _, by simp, hdate, gmdClause_loaded t.ogmd t.ogmdBare hh.ogmdKeys, gmdClause_loaded t.sgmd t.sgmdBare hh.sgmdKeys⟩
 
 /-- The property on the model: write, then load with any loader — `C01.holds` is true. `compress`
 is not an input of `toH5`, so the statement covers both settings. -/
 theorem model_holds [DecidableEq δ] (c : Utf8) (hc : c.RT) (dc : DateC δ) (hdc : dc.RT) (t : Src α)
     (genBy : String) (date : Option δ) (now : δ) (csr csc : CS α) (hw : SrcWF t) (hv : Views t csr csc)
-    (hmo : mdDomain t.omd = true) (hms : mdDomain t.smd = true) (hao : keysNoAt t.omd) (has : keysNoAt t.smd)
+    (hmo : mdDomain t.omd = true) (hms : mdDomain t.smd = true) (hao : rtDomain t.omd) (has : rtDomain t.smd)
     (hh : HeaderOK t) (l : Loader) :
     holds t genBy date ((toH5 c dc t genBy date now csr csc).bind (load c dc Sniff.written l)) = true := by
   rw [toH5_written c dc t genBy date now csr csc hw hv hmo hms]
@@ -106,14 +106,14 @@ theorem model_holds [DecidableEq δ] (c : Utf8) (hc : c.RT) (dc : DateC δ) (hdc
 /-- through the observation axis as well (`Table.from_hdf5(h, axis='observation')`) -/
 theorem model_holds_obs_axis [DecidableEq δ] (c : Utf8) (hc : c.RT) (dc : DateC δ) (hdc : dc.RT) (t : Src α)
     (genBy : String) (date : Option δ) (now : δ) (csr csc : CS α) (hw : SrcWF t) (hv : Views t csr csc)
-    (hmo : mdDomain t.omd = true) (hms : mdDomain t.smd = true) (hao : keysNoAt t.omd) (has : keysNoAt t.smd)
+    (hmo : mdDomain t.omd = true) (hms : mdDomain t.smd = true) (hao : rtDomain t.omd) (has : rtDomain t.smd)
     (hh : HeaderOK t) :
     holds t genBy date ((toH5 c dc t genBy date now csr csc).bind (fun h => fromH5 c dc h .obs)) = true := by
   rw [fromH5_toH5 c hc dc hdc t genBy date now csr csc hw hv hmo hms hao has hh .obs]
   exact holds_expected t genBy date now hw hmo hms hh
 
 /-- A category name containing the escape text itself does not survive: `'a@@SLASH@@b'` is read
-back as `'a/b'` (outside the guard `keysNoAt`). -/
+back as `'a/b'` (outside the guard `rtDomain`). -/
 theorem slash_witness : unsanitize (sanitize "a@@SLASH@@b") = "a/b" := by decide
 
 /-- … while names with '/' do -/
@@ -121,10 +121,10 @@ example : unsanitize (sanitize "na/me/") = "na/me/" := by decide
 
 /-! Non-vacuity: the demo table of C04 (text + hierarchical + numeric metadata, a '/' in a category
 name, unsorted indices in the row view) meets every hypothesis, and the round trip is computed. -/
-example : keysNoAt demoSrc.omd := by
+example : rtDomain demoSrc.omd := by
   intro e0 es h k hk
   simp only [demoSrc, Option.some.injEq, List.cons.injEq] at h
-  obtain ⟨rfl, _⟩ := h
+  obtain ⟨rfl, rfl⟩ := h
   revert k hk; decide
 example : HeaderOK demoSrc := ⟨by decide, by decide, by decide, by decide⟩
 example : fromH5 Utf8.ident DateC.ident (written Utf8.ident DateC.ident demoSrc "g" (some "2020-01-02") "" demoCsr demoCsc) .samp
